@@ -1,4 +1,6 @@
 import Proofs.InvProps
+import Proofs.Hitzer5
+import Proofs.Blade
 
 /-! # C05 — inverses, division and integer powers are true two-sided algebra inverses / powers
 
@@ -27,6 +29,51 @@ theorem hitzer_partial (M num : Cl n sig) (d dinv : R) (h : M * num = d • (1 :
     M * (dinv • num) = 1 ∧ (dinv • num) * M = 1 := Cl.scaled_inverse M num d dinv h hd
 theorem shirokov_partial (M adjU : Cl n sig) (d dinv : R) (h : M * adjU = d • (1 : Cl n sig)) (hd : d * dinv = 1) :
     M * (dinv • adjU) = 1 ∧ (dinv • adjU) * M = 1 := Cl.scaled_inverse M adjU d dinv h hd
+
+/-! ### the closed-form numerators as coded, n = 1..4: `M * numerator` is a scalar — for every multivector and every
+signature (symbolic, zeros included).  Together with `hitzer_partial` (whose premise this discharges) the value returned
+by `_hitzer_inverse` is the two-sided inverse whenever the denominator is invertible, and the `ValueError` branch is taken
+exactly when the scalar `M * numerator` is 0.  (n = 0: the numerator is `1`.) -/
+
+theorem hitzer_scalar_n1 (sig : Nat → R) (M : CMV 1 R) (c : Bm 1) (hc : c ≠ fzero) : gmul 1 sig M (gi 1 M) c = 0 := hitzer1 sig M c hc
+theorem hitzer_scalar_n2 (sig : Nat → R) (M : CMV 2 R) (c : Bm 2) (hc : c ≠ fzero) : gmul 2 sig M (cconj 2 M) c = 0 := hitzer2 sig M c hc
+/-- n = 3: `numerator = conj M * ~(M * conj M)` -/
+theorem hitzer_scalar_n3 (sig : Nat → R) (M : CMV 3 R) (c : Bm 3) (hc : c ≠ fzero) : gmul 3 sig M (num3 sig M) c = 0 := hitzer3 sig M c hc
+/-- n = 4: `numerator = conj M * (A - 2 A(3,4))`, `A = M * conj M` -/
+theorem hitzer_scalar_n4 (sig : Nat → R) (M : CMV 4 R) (c : Bm 4) (hc : c ≠ fzero) : gmul 4 sig M (num4 sig M) c = 0 := hitzer4 sig M c hc
+
+/-- n = 5 (g3c and every other 5-dimensional algebra): `combo = conj M * ~(M conj M)`, `B = M * combo`,
+`numerator = combo * (B - 2 B(1,4))` -/
+theorem hitzer_scalar_n5 (sig : Nat → R) (M : CMV 5 R) (c : Bm 5) (hc : c ≠ fzero) : gmul 5 sig M (num5 sig M) c = 0 := hitzer5 sig M c hc
+
+/-- a multivector whose non-scalar components vanish is its scalar component times 1 -/
+theorem scalar_of_components (n : Nat) (X : CMV n R) (h : ∀ c, c ≠ fzero → X c = 0) : X = (X fzero) • one n := by
+  funext c
+  by_cases hc : c = fzero
+  · subst hc; simp [one, smul_eq_mul_R]
+  · rw [h c hc]; simp [one, hc, smul_eq_mul_R]
+
+/-- **closed-form inverse, full statement** (n = 1..5 through the `hitzer_scalar_n*` theorems): if the denominator
+`d = (M * numerator)[scalar]` is invertible, `numerator / d` is the two-sided inverse of `M` -/
+theorem closed_form_correct (n : Nat) (sig : Nat → R) (M num : Cl n sig) (hs : ∀ c, c ≠ fzero → (M * num) c = 0)
+    (dinv : R) (hd : (M * num) fzero * dinv = 1) : M * (dinv • num) = 1 ∧ (dinv • num) * M = 1 :=
+  Cl.scaled_inverse M num ((M * num) fzero) dinv (scalar_of_components n (M * num) hs) hd
+
+theorem hitzer_correct_n5 (sig : Nat → R) (M : Cl 5 sig) (dinv : R) (hd : (M * (asCl (num5 sig M) : Cl 5 sig)) fzero * dinv = 1) :
+    M * (dinv • (asCl (num5 sig M) : Cl 5 sig)) = 1 ∧ (dinv • (asCl (num5 sig M) : Cl 5 sig)) * M = 1 :=
+  closed_form_correct 5 sig M ((asCl (num5 sig M) : Cl 5 sig)) (fun c hc => hitzer5 sig M c hc) dinv hd
+theorem hitzer_correct_n4 (sig : Nat → R) (M : Cl 4 sig) (dinv : R) (hd : (M * (asCl (num4 sig M) : Cl 4 sig)) fzero * dinv = 1) :
+    M * (dinv • (asCl (num4 sig M) : Cl 4 sig)) = 1 ∧ (dinv • (asCl (num4 sig M) : Cl 4 sig)) * M = 1 :=
+  closed_form_correct 4 sig M ((asCl (num4 sig M) : Cl 4 sig)) (fun c hc => hitzer4 sig M c hc) dinv hd
+theorem hitzer_correct_n3 (sig : Nat → R) (M : Cl 3 sig) (dinv : R) (hd : (M * (asCl (num3 sig M) : Cl 3 sig)) fzero * dinv = 1) :
+    M * (dinv • (asCl (num3 sig M) : Cl 3 sig)) = 1 ∧ (dinv • (asCl (num3 sig M) : Cl 3 sig)) * M = 1 :=
+  closed_form_correct 3 sig M ((asCl (num3 sig M) : Cl 3 sig)) (fun c hc => hitzer3 sig M c hc) dinv hd
+/-- and when the denominator is 0 in a domain-like sense (`M * numerator = 0` with `numerator ≠ 0`), `M` is a zero divisor: no inverse exists -/
+theorem hitzer_singular (n : Nat) (sig : Nat → R) (M num : Cl n sig) (hs : ∀ c, c ≠ fzero → (M * num) c = 0)
+    (hd : (M * num) fzero = 0) (hnum : num ≠ 0) : ¬ ∃ X : Cl n sig, X * M = 1 := by
+  apply Cl.zero_divisor_not_invertible M num _ hnum
+  rw [scalar_of_components n (M * num) hs, hd, zero_smul]
+  rfl
 
 /-- a zero divisor has no inverse … -/
 theorem zero_divisor_not_invertible (M N : Cl n sig) (hMN : M * N = 0) (hN : N ≠ 0) : ¬ ∃ X : Cl n sig, X * M = 1 :=
